@@ -19,13 +19,14 @@ EXPLANATION = (
     "only store to DescriptorFormat.config in the package is in set_config and nothing mutates it in place; C14.5 "
     "validate-before-write: the store is dominated by the completed validation loop over both patterns, the stored object "
     "is the validated one, the raise is reached exactly on set inequality; C14.6 validator and formatter agree on the "
-    "placeholder names.")
+    "placeholder names; C14.7 the renderer is stateless: it writes no class / module state, reads only the format in force "
+    "at the time of the call, is not cached, and every branch formats with a pattern taken from that format.")
 NOT_DECIDED = ["equality of rendered strings after arbitrary histories (needs execution); the stack model itself is decided structurally"]
 C = "DescriptorFormat"
 
 
 def run(ctx, ss):
-    for r, f in (("C14.1", c14_1), ("C14.3", c14_3), ("C14.4", c14_4), ("C14.5", c14_5), ("C14.6", c14_6)):
+    for r, f in (("C14.1", c14_1), ("C14.3", c14_3), ("C14.4", c14_4), ("C14.5", c14_5), ("C14.6", c14_6), ("C14.7", c14_7)):
         ctx.guard(r, f, ss)
 
 
@@ -278,13 +279,59 @@ def c14_6(ctx, ss):
     ff, flow = fn(ss, UTIL, f"{C}.set_config")
     gf_, gflow = fn(ss, UTIL, f"{C}.format_descriptor")
     sets = [n for n in pf.walk_no_nested(ff.node) if isinstance(n, ast.Set) and all(isinstance(e, ast.Constant) for e in n.elts)]
-    dicts = [n for n in pf.walk_no_nested(gf_.node) if isinstance(n, ast.Dict) and all(isinstance(k, ast.Constant) for k in n.keys)]
-    if not sets or not dicts:
-        raise AnchorMissing("placeholder set / formatter argument dict not found")
+    # names the formatter supplies: keys of a literal dict passed as **kwargs, or explicit keywords of the formatting call
+    b = set()
+    for c in pf.calls_in(gf_.node):
+        for kw in c.keywords:
+            if kw.arg is None:
+                v = gflow.expand(kw.value)
+                if isinstance(v, ast.Dict) and all(isinstance(k_, ast.Constant) for k_ in v.keys):
+                    b |= {k_.value for k_ in v.keys}
+            elif kw.arg in ("mother", "daughters") or (isinstance(c.func, ast.Attribute) and c.func.attr == "format"):
+                b.add(kw.arg)
+    if not sets or not b:
+        raise AnchorMissing("placeholder set / names supplied by the formatter not found")
     a = {e.value for e in sets[0].elts}
-    b = {k.value for k in dicts[0].keys}
     k = f"{UTIL}:{C} :: placeholder-agreement"
     if a == b == {"mother", "daughters"}:
         ctx.holds("C14.6", k, where(ff, sets[0]), "validator and formatter agree on {mother, daughters}", 2)
     else:
         ctx.violation("C14.6", k, where(ff, sets[0]), f"validator expects {sorted(a)}, the formatter supplies {sorted(b)}: validated patterns can fail (KeyError) or render wrongly")
+
+
+def c14_7(ctx, ss):
+    """The renderer depends on the format in force at the time of the call and on nothing else: it reads no class /
+    module state other than DescriptorFormat.config and writes none (a cache in the renderer survives __exit__)."""
+    from ..core.effects import effects
+    ff, flow = fn(ss, UTIL, f"{C}.format_descriptor")
+    ef = effects(ss)
+    k = ckey(ff, None, "stateless-renderer")
+    ws = [w for w in ef.transitive_state_writes(ff.key) if w.root[0] == "state"]
+    if ws:
+        w = ws[0]
+        wf = ef.cg.funcs[w.func]
+        ctx.violation("C14.7", k, where(wf, w.node), f"the renderer writes {w.root[1]} ({w.how}): what it renders after a block can depend on what was rendered inside the block")
+        return
+    reads = [a for a in pf.walk_no_nested(ff.node) if isinstance(a, ast.Attribute) and isinstance(a.ctx, ast.Load)
+             and txt(a.value) in (C, "cls", "self", "self.__class__", "type(self)")]
+    other = [a for a in reads if a.attr != "config"]
+    globs = [g for g in pf.walk_no_nested(ff.node) if isinstance(g, (ast.Global, ast.Nonlocal))]
+    if other or globs:
+        n = (other or globs)[0]
+        ctx.violation("C14.7", k, where(ff, n), f"the renderer reads `{txt(n)[:60]}`, state other than the format in force")
+        return
+    if set(ff.decorators) & {"lru_cache", "cache", "functools.lru_cache", "functools.cache"}:
+        ctx.violation("C14.7", k, where(ff, ff.node), "the renderer is cached across calls: the cache key does not include the format in force")
+        return
+    # each branch takes its pattern from the configuration at call time
+    rets = returns(ff)
+    bad = []
+    for r in rets:
+        e = flow.expand(r.value)
+        if not (isinstance(e, ast.Call) and isinstance(e.func, ast.Attribute) and e.func.attr == "format" and isinstance(e.func.value, ast.Subscript)
+                and _is_config(e.func.value.value)):
+            bad.append(r)
+    if bad or not rets:
+        ctx.violation("C14.7", k, where(ff, (bad or [ff.node])[0]), f"a branch renders `{flow.text(bad[0].value)[:80] if bad else '?'}`: not <format in force>[pattern].format(…)")
+    else:
+        ctx.holds("C14.7", k, where(ff, ff.node), f"format_descriptor writes no state, reads only {C}.config ({len(reads)} reads) and every branch formats with the pattern in force", len(reads) + len(rets) + 1)
